@@ -263,4 +263,11 @@ theorem lanes_any_order (I : Inst) (r s : Nat) (K : SegOK I s) (order : List Nat
   · subst hxy; rfl
   · exact lanes_commute I r y x s K (Ne.symm hxy) z
 
+/-! non-vacuity -/
+example : SegOK ⟨2, 8, 2, 1, 16, 1⟩ 3 := ⟨rfl, by decide, by decide, by decide⟩
+
+/-- an instance of `key_eq_rfc9106`: Argon2id, t = 1, m = 5 (below 8p: 16 blocks are used), p = 2, T = 70 -/
+example : deriveKey 2 [1] [2] [] [] 1 5 2 70 = .key (argon2RFC 2 [1] [2] [] [] 1 5 2 70) :=
+  key_eq_rfc9106 2 [1] [2] [] [] 1 5 2 70 (by decide) (by decide) (by decide) (by decide) (by decide) (by decide)
+
 end XC.C15
